@@ -2,6 +2,7 @@ import AGV.Util.Sexp
 import AGV.Util.Judge
 import AGV.Model.Scalars
 import AGV.Spec.Scalars
+import AGV.Gen.NumScalars
 
 open AGV AGV.Sexp
 
@@ -93,7 +94,8 @@ def valueSexp : GValue → Sexp
 def idsOf (known : List String) : Defects :=
   { idRejectsLargeUint := known.contains "C07-id-rejects-large-uint"
     nonFiniteToNull := known.contains "C07-nonfinite-float-null"
-    nonZeroUnsignedIsValidI64 := known.contains "C07-nonzero-unsigned-isvalid-i64" }
+    nonZeroUnsignedIsValidI64 := known.contains "C07-nonzero-unsigned-isvalid-i64"
+    intValidatorOfFirstRegistered := known.contains "C07-int-validator-of-first-registered" }
 
 /-- predicate-style triage: `sat` = the implementation's output satisfies what the property
     requires on this case; `model known'` = output of the model under the given findings -/
@@ -110,8 +112,87 @@ def decide (known : List String) (impl : String) (sat : Bool) (specTxt : String)
     | none => .viol modelK specTxt
   else .viol modelK specTxt
 
+
+-- ------------------------------------------------------------------ stream `schema`
+
+open AGV.Gen.IntScalars in
+def entryNamed (n : String) : Option Entry := table.find? (fun e => e.name = n)
+
+open AGV.Gen.IntScalars in
+/-- the integer types `add_system_types` registers before any user type, in order (source-derived) -/
+def systemInts : List Entry := AGV.Gen.NumScalars.systemScalars.filterMap entryNamed
+
+open AGV.Gen.IntScalars in
+def decodeOrder (l : List Sexp) : Option (List Entry) :=
+  l.mapM (fun x => match x with
+    | .str n => entryNamed (String.ofList n)
+    | _ => none)
+
+def classSexp : Model.Scalars.VClass → Sexp
+  | .i64 => .atom "i64"
+  | .u64 => .atom "u64"
+  | .any => .atom "any"
+  | .other => .atom "other"
+
+def sresSexp : Model.Scalars.SRes → Sexp
+  | .accepted r => .list [.atom "ok", ofInt r]
+  | .rejected .validation => .list [.atom "rejected", .atom "validation"]
+  | .rejected .execution => .list [.atom "rejected", .atom "execution"]
+  | .crash => .list [.atom "model-panic"]
+
+/-- what the property requires at a position of integer type `name`, and whether `res` (the
+    last element of the implementation's output, rendered) meets it -/
+def intReq (name : String) (v : GValue) (res : String) : Bool × String :=
+  match Spec.Scalars.coerce (.int name) v with
+  | .accept (.int r) =>
+    let want := render (.list [.atom "ok", ofInt r])
+    (res == want, want)
+  | .reject => (res == "(rejected validation)" || res == "(rejected execution)", "(rejected _)")
+  | _ => (false, "?")
+
+open AGV.Gen.IntScalars in
+def judgeSch (known : List String) (impl : String) (order : List Entry) (t : Entry) (via : String) (v : GValue) : JudgeOut :=
+  -- a `Schema` registers the system scalars first
+  let full := systemInts ++ order
+  let res := match parse impl with
+    | some (.list [.atom "sch", _, r]) => render r
+    | _ => ""
+  let (sat, specTxt) := intReq t.name v res
+  let model (k : List String) : String :=
+    let D := idsOf k
+    -- `$v: Int = null`: null is a valid default of the nullable variable; the resolver's argument
+    -- of type `Int!` then refuses it
+    let a := if via = "def" ∧ v = .null then Model.Scalars.SRes.rejected .execution
+      else Model.Scalars.schemaAnswer D full t v
+    render (.list [.atom "sch", classSexp (Model.Scalars.schemaValidatorClass D full t), sresSexp a])
+  decide known impl sat ("(sch _ " ++ specTxt ++ ")") model
+
+open AGV.Gen.IntScalars in
+def judgeReg (known : List String) (impl : String) (order : List Entry) (t : Entry) (v : GValue) : JudgeOut :=
+  let res := match parse impl with
+    | some (.list [.atom "reg", _, r]) => render r
+    | _ => ""
+  -- a value of the position's type must pass the validator registered under `Int`
+  let must : Bool := Spec.Scalars.coerce (.int t.name) v ≠ .reject
+  let sat : Bool := (res == "true" || res == "false") && (!must || res == "true")
+  let model (k : List String) : String :=
+    let D := idsOf k
+    render (.list [.atom "reg", classSexp (Model.Scalars.schemaValidatorClass D order t),
+      ofBool (Model.Scalars.schemaValid D order t v)])
+  decide known impl sat (if must then "(reg _ true)" else "(reg _ true|false)") model
+
 def judge (known : List String) (case impl : String) : JudgeOut :=
   match parse case with
+  | some (.list [.atom "sch", .atom _, .list order, .list [.atom "int", .str name], .atom via, vS]) =>
+    match decodeOrder order, entryNamed (String.ofList name), decodeV vS with
+    | some o, some t, some v =>
+      if o.any (fun e => e.name = t.name) then judgeSch known impl o t via v else .viol "bad-case" "bad-case"
+    | _, _, _ => .viol "bad-case" "bad-case"
+  | some (.list [.atom "reg", .list order, .list [.atom "int", .str name], vS]) =>
+    match decodeOrder order, entryNamed (String.ofList name), decodeV vS with
+    | some o, some t, some v =>
+      if o.any (fun e => e.name = t.name) then judgeReg known impl o t v else .viol "bad-case" "bad-case"
+    | _, _, _ => .viol "bad-case" "bad-case"
   | some (.list [.atom "parse", tyS, vS]) =>
     match decodeTy tyS, decodeV vS with
     | some (ty, sty), some v =>
